@@ -86,6 +86,83 @@ def cases(seed, n, tier):
         yield i, lsq.gen_problem(rng, force=force)
 
 
+def network_level(ck, tier, seed):
+    """cov-mat of the XML output = m0^2 Q for any --cov-band; identical on the common entries across band settings;
+    dim / band clipping and the flattened order checked through original-index."""
+    import math
+    from .. import netgen, xmlout, netlevel
+    runner.build("san", targets=["gama-local"])
+    n = tier_n(tier, 16, 400)
+    fr = netgen.Frame()
+    jobs = []
+    for i in range(n):
+        rng, net, feats = netlevel.gen_mixed(seed, i, 333)
+        net.params["sigma_act"] = str(rng.choice(["aposteriori", "apriori"]))
+        txt = netgen.to_gkf(net, fr)
+        alg = netlevel.ALGS[i % 4]
+        for band in ("-1", "0", "1", "2", "dim-1", "dim+5"):
+            jobs.append((i, net, feats, alg, band, txt))
+
+    def work(job):
+        i, net, feats, alg, band, txt = job
+        # dim is not known before the run: 'dim-1'/'dim+5' use a generous upper bound / are resolved after a first run
+        nunk = 3 * len(net.points) + len(net.clusters)
+        b = {"dim-1": str(max(nunk - 1, 0)), "dim+5": str(nunk + 5)}.get(band, band)
+        args = ["--algorithm", alg] + ([] if band == "-1" and i % 2 else ["--cov-band", b])
+        return job, xmlout.run_gama_local(txt, ck.tmp, "cb%d-%s" % (i, band.replace("+", "p")), args=args, trace=True)
+
+    groups = {}
+    for (i, net, feats, alg, band, txt), g in runner.pmap(work, jobs):
+        wit = dict(seed=seed, index=i, alg=alg, band=band, kind=net.kind, features=feats, level="network",
+                   input=txt if len(ck.violations) < 3 else None)
+        if ck.sanitizer(g.rr, wit, prefix="gama-local:"):
+            continue
+        if g.rr.timeout or netlevel.outcome(g) != "adjusted":
+            ck.inconc("not adjusted / timeout")
+            continue
+        R = g.xml
+        ev = netlevel.adjust_events(g)[-1]
+        ref = lsq.Reference(netlevel.event_problem(ev))
+        if not (ref.ok and ref.subset_ok):
+            ck.inconc("system not admitted")
+            continue
+        m0 = R["apriori"] if R["used"] == "apriori" else (math.sqrt(ev["pvv"] / R["dof"]) if R["dof"] > 0 else 0.0)
+        dim = R["cov_dim"]
+        if dim != ev["n"]:
+            ck.violation("network:cov:dim", "cov-mat dim %d, unknowns %d" % (dim, ev["n"]), wit)
+            continue
+        want = {"-1": dim - 1, "0": 0, "1": min(1, dim - 1), "2": min(2, dim - 1), "dim-1": dim - 1, "dim+5": dim - 1}[band]
+        if R["cov_band"] != want:
+            ck.violation("network:cov:band-clipping:%s" % band, "--cov-band %s on dim %d: <band> %d, expected %d" % (
+                band, dim, R["cov_band"], want), wit)
+            continue
+        try:
+            ratio, msg, cnt, C, order = netlevel.xml_cov_against_reference(R, ev, ref, m0)
+        except xmlout.ParseFailure as e:
+            ck.violation("network:cov:element-count:%s" % band, str(e), wit)
+            continue
+        ck.ratio("network cov-mat", ratio, 1.0)
+        if msg:
+            ck.violation("network:cov:value:%s:band=%s" % (alg, band), msg + " [%s, case %d]" % (net.kind, i), wit)
+        if R["original_index"] != order:
+            ck.violation("network:cov:original-index", "original-index %s..., rows of the matrix belong to unknowns %s..." % (
+                R["original_index"][:6], order[:6]), wit)
+        ck.count("network cofactors compared", cnt)
+        ck.case(("network", alg, "band=" + band, "singular" if ref.defect else "regular", net.kind))
+        groups.setdefault(i, {})[band] = C
+    for i, d in groups.items():
+        if "-1" not in d:
+            continue
+        full = d["-1"]
+        for band, C in d.items():
+            if C.shape != full.shape:
+                continue
+            m = ~np.isnan(C)
+            if np.any(np.abs(C[m] - full[m]) > 1e-6 * np.abs(full[m]) + 1e-12 * np.max(np.abs(full))):
+                ck.violation("network:cov:band-dependent-values", "cov-mat entries differ between --cov-band %s and the "
+                             "full matrix (case %d)" % (band, i), dict(seed=seed, index=i))
+
+
 def run(tier, seed, only=None):
     runner.build("san", targets=["adjdrv"])
     ck = Check("C03", tier, seed,
@@ -124,6 +201,8 @@ def run(tier, seed, only=None):
         ck.count("cofactors compared", ref.n * ref.n + ref.m * ref.m)
         if i < 2 and kind == "adj" and alg == "envelope":
             ck.sample(dict(index=i, meta=meta, minx=P["minx"]))
+    if only is None:
+        network_level(ck, tier, seed)
     ck.assumptions += ["numpy pinv/SVD reference: Q = T N+ T', T = I - G (Gs'Gs)^-1 Gs'",
                        "admission rule as in C01"]
     ck.minimum = dict(evaluations=tier_n(tier, 500, 10000), distinct=40)
